@@ -378,6 +378,9 @@ func runC18(c *Ctx) {
 		}
 	}
 	checkGeneralHeap(r, c)
+	if pr := c.Load("runtime"); pr != nil {
+		checkHeapFieldDiscipline(r, pr, "heap/only-through-container-heap", "runtime/timed", "Queue", "heap")
+	}
 }
 
 func stripConv(e ast.Expr) string {
@@ -599,5 +602,81 @@ func checkGeneralHeap(r *Reporter, c *Ctx) {
 		} else {
 			r.Fail("heap/index-maintained", key, "-", "expected: "+rw.want+"; found: "+src(rw.m))
 		}
+	}
+}
+
+// checkHeapFieldDiscipline: the backing slice of an indexed heap (elements carry their own index,
+// removal handles rely on Pop/Remove setting it to -1) may only be changed through
+// container/heap: the field is passed by address to heap.Push/Pop/Remove/Fix/Init and is
+// otherwise only read (Len, len, element reads). A direct element store, a re-slice, or a
+// sort of the slice bypasses the index bookkeeping: stale handles then remove unrelated
+// elements or index out of range.
+func checkHeapFieldDiscipline(r *Reporter, p *Prog, rule, pkg, typ, field string) {
+	pk := p.Pkg(pkg)
+	if pk == nil {
+		r.Unresolved(rule, pkg+"."+typ+"."+field, "package not loaded")
+		return
+	}
+	info := pk.TypesInfo
+	nHeapCalls := 0
+	var bad []string
+	isField := func(e ast.Expr) bool { return fieldSel(info, e, field) }
+	for _, fd := range p.Methods(pkg, typ) {
+		if fd.Body == nil {
+			continue
+		}
+		fkey := funcKey(pkg, fd)
+		var stack []ast.Node
+		ast.Inspect(fd.Body, func(n ast.Node) bool {
+			if n == nil {
+				stack = stack[:len(stack)-1]
+				return true
+			}
+			stack = append(stack, n)
+			switch x := n.(type) {
+			case *ast.AssignStmt:
+				for _, l := range x.Lhs {
+					l = ast.Unparen(l)
+					if ix, ok := l.(*ast.IndexExpr); ok && isField(ix.X) {
+						bad = append(bad, fmt.Sprintf("%s: direct element store %s in %s", p.posStr(x.Pos()), exprKey(l), fkey))
+					}
+					if isField(l) {
+						bad = append(bad, fmt.Sprintf("%s: the heap slice is re-assigned (%s = %s) in %s", p.posStr(x.Pos()), exprKey(l), exprKey(x.Rhs[0]), fkey))
+					}
+				}
+			case *ast.CallExpr:
+				callee := exprKey(x.Fun)
+				for _, a := range x.Args {
+					a = ast.Unparen(a)
+					if ue, ok := a.(*ast.UnaryExpr); ok && ue.Op == token.AND && isField(ue.X) {
+						if fn, ok := info.Uses[selIdent(x.Fun)].(*types.Func); ok && fn.Pkg() != nil && fn.Pkg().Path() == "container/heap" {
+							nHeapCalls++
+						} else {
+							bad = append(bad, fmt.Sprintf("%s: the heap slice is handed by address to %s (not container/heap) in %s", p.posStr(x.Pos()), callee, fkey))
+						}
+					}
+					if isField(a) && callee != "len" && callee != "cap" {
+						bad = append(bad, fmt.Sprintf("%s: the heap slice is passed to %s in %s (sorting or copying it in place bypasses Pop's index reset)", p.posStr(x.Pos()), callee, fkey))
+					}
+				}
+				if se, ok := ast.Unparen(x.Fun).(*ast.SelectorExpr); ok && isField(se.X) {
+					switch se.Sel.Name {
+					case "Len", "Less":
+					default:
+						bad = append(bad, fmt.Sprintf("%s: %s called directly on the heap slice in %s (only container/heap may drive Push/Pop/Swap)", p.posStr(x.Pos()), se.Sel.Name, fkey))
+					}
+				}
+			}
+			return true
+		})
+	}
+	key := pkg + "." + typ + "." + field
+	switch {
+	case len(bad) > 0:
+		r.Fail(rule, key, "-", bad[0], bad...)
+	case nHeapCalls < 2:
+		r.Fail(rule, key, "-", fmt.Sprintf("expected the heap to be driven through container/heap, found %d such calls (row vacuous)", nHeapCalls))
+	default:
+		r.Pass(rule, key, "-", fmt.Sprintf("%d container/heap calls on &%s; no direct store, re-slice, sort or Push/Pop/Swap call", nHeapCalls, field))
 	}
 }
